@@ -152,6 +152,22 @@ func runRecycle(r *vlib.Run, rs *recycleSpec) {
 	if !st.Quiesce(30 * time.Second) {
 		r.Inconclusive("round " + rs.Name + ": the server did not quiesce within 30s")
 	}
+	// the drain-buffer sweep (sweep.go): one burst at a time on the now idle
+	// engines, TCP then DoT, on streams the lanes above left in the pools
+	swept := make(chan struct{})
+	go func() {
+		defer close(swept)
+		env.runSweep("tcp")
+		env.runSweep("dot")
+	}()
+	select {
+	case <-swept:
+	case <-time.After(watchdog):
+		r.Inconclusive(fmt.Sprintf("round %s: the drain sweep was still running after %v (watchdog)", rs.Name, watchdog))
+	}
+	if !st.Quiesce(30 * time.Second) {
+		r.Inconclusive("round " + rs.Name + ": the server did not quiesce within 30s after the sweep")
+	}
 	close(base.stop)
 
 	c1 := st.Counters()
@@ -342,7 +358,7 @@ func frameOf(pkt []byte) []byte {
 // reask builds a second query for an already answered question: the very same
 // packet under a fresh id, so it is the same cache key whatever the key is.
 func (g *genCtx) reask(o *query) *query {
-	q := &query{Kind: kHit, KindS: kHit.String(), Name: o.Name, Qtype: o.Qtype, Qclass: o.Qclass, Nonce: o.Nonce, Cookie: o.Cookie}
+	q := &query{Kind: kHit, KindS: kHit.String(), Name: o.Name, Qtype: o.Qtype, Qclass: o.Qclass, Nonce: o.Nonce, Cookie: o.Cookie, edns: o.edns}
 	q.ID = g.pickID(fmt.Sprintf("%s|%d|%d", o.Name, o.Qtype, o.Qclass))
 	q.pkt = append([]byte(nil), o.pkt...)
 	binary.BigEndian.PutUint16(q.pkt, q.ID)
